@@ -31,7 +31,8 @@ ARRAYS_THOROUGH = ARRAYS_QUICK + [("t",), ("b", "a"), ("a", "b", "t"), ("t", "b"
 
 def _worker(prog, rep, job):
     kind, letters, tier = job
-    res = DC.case_to_df(prog, letters) if kind == "to_df" else DC.case_df_history(prog, letters) if kind == "hist" else DC.case_roundtrips(prog, letters, tier)
+    res = DC.case_to_df(prog, letters) if kind == "to_df" else DC.case_df_history(prog, letters) if kind == "hist" else \
+        DC.case_same_item_sets(prog) if kind == "same-items" else DC.case_roundtrips(prog, letters, tier)
     fails = {}
     for inp, ok, msg, qual in res:
         rule = "C11.to_df-lists-every-entry" if kind == "to_df" else "C11.roundtrip-identical"
@@ -95,7 +96,7 @@ def run(prog, rep):
         prog.method(c, m)
     prog.cls("DataFrameToFlodymDataConverter")
     arrays = ARRAYS_QUICK if rep.tier == "quick" else ARRAYS_THOROUGH
-    jobs = [("to_df", l, rep.tier) for l in arrays] + [("rt", l, rep.tier) for l in arrays] + [("hist", l, rep.tier) for l in arrays]
+    jobs = [("to_df", l, rep.tier) for l in arrays] + [("rt", l, rep.tier) for l in arrays] + [("hist", l, rep.tier) for l in arrays] + [("same-items", ("o", "d"), rep.tier)]
     fails = {}
     for part in pmap(_worker, jobs, prog, rep):
         for k, (count, inp, msg) in part.items():
